@@ -48,17 +48,27 @@ ASSUMPTIONS = [
     "which restores the exact inverse (C07_reopen_restores)",
     "the composed model (driver op geo) is compared with the library's lookups only on (obstacle, time step) pairs whose answer "
     "does not depend on float rounding: no lanelet in an ambiguity band, no angle addition, no polygon rotation",
-    "histories keep the lanelet network fixed; use_center_only=True and inadmissible arguments (unknown ids, time steps before "
+    "network-changing histories (30 % of the cases: Scenario.remove_lanelet / add_objects(Lanelet) between the obstacle operations, "
+    "lanelets absent at the start, obstacles constructed with lanelet ids = the lookup answers on all lanelets of the case): "
+    "remove_obstacle of a contained obstacle must never raise (key C07/remove_obstacle/raises-after-lanelet-removal); recorded "
+    "sets are judged against the geometry only when the operation just wrote them (older ones may name lanelets that left); the "
+    "exact inverse is judged on the present lanelets and, after a lanelet was (re-)added, only 'registry within recorded' until "
+    "the next full assignment or file read (C07c_registry_bounds, C07c_reassign_exact); add_objects of an obstacle whose "
+    "recorded shape sets name a lanelet missing from a non-empty network raises AttributeError by construction - the property "
+    "does not promise that adding never fails: modelled (error branch), compared, not judged",
+    "in the remaining cases the lanelet network is fixed; use_center_only=True and inadmissible arguments (unknown ids, time steps before "
     "the initial one, re-adding a contained obstacle) are compared with the model but not judged by the oracle",
 ]
 TRUSTED = ["shapely/GEOS predicates are not modelled; their answers enter the model as parameters and are checked by the oracle"]
 # composition with C06's index model: Env.cen / Env.shp := find_lanelet_by_position / find_lanelet_by_shape on a built network;
 # the geometric sentence with only the primitive predicates within / meets left as parameters (built + audited every run)
-EXTRA_MODULES = ["CRProps.C07b"]
+EXTRA_MODULES = ["CRProps.C07b", "CRProps.C07c"]
 REQUIRED_BUCKETS = ["entry/assign", "entry/reopen-xml", "entry/reopen-pb", "kind/static", "kind/traj", "kind/none", "kind/set", "geo/composed-compared",
                     "shape/rect", "shape/rect-rotated", "shape/circ", "shape/poly", "shape/group",
                     "geo/shape-beyond-center", "geo/touching", "geo/off-road", "geo/multi-lanelet-center",
-                    "op/remove-after-assign", "op/readd", "op/partial-assign", "op/center-only", "op/error"]
+                    "op/remove-after-assign", "op/readd", "op/partial-assign", "op/center-only", "op/error",
+                    "net/rmlane", "net/addlane", "net/remove-obstacle-recording-absent-lanelet",
+                    "net/remove-preset-obstacle-after-late-lanelets"]
 
 G = 16.0           # grid
 ORIS = [0.0, 0.0, 0.3, -1.2, 1.5708, 0.7854, 3.1416, -0.5, 2.0]
@@ -280,7 +290,65 @@ def gen_case(ctx):
     r = ctx.rng
     lanes = gen_network(r)
     obs = gen_obstacles(r, lanes)
-    return {"lanelets": lanes, "obstacles": obs, "ops": gen_ops(r, obs)}
+    x = r.random()
+    if x < 0.70:
+        return {"lanelets": lanes, "obstacles": obs, "ops": gen_ops(r, obs)}
+    lids = [l["id"] for l in lanes]
+    ids = [o["id"] for o in obs]
+    for o in obs:
+        if o["kind"] == "set":          # keep the network histories to the obstacle kinds the property speaks about
+            o["kind"] = "none"
+            o.pop("occ", None)
+    if x < 0.78:
+        # a lanelet leaves the network between the assignment and remove_obstacle
+        ops = [["add", i] for i in ids] + [["assign", None, None, False] if r.random() < 0.7 else ["reopen", r.choice(["xml", "pb"])]]
+        gone = r.sample(lids, r.randint(1, max(1, len(lids) - 1)))
+        ops += [["rmlane", l] for l in gone]
+        rest = ids[:]
+        r.shuffle(rest)
+        ops += [["remove", i] for i in rest[:r.randint(1, len(rest))]]
+        if r.random() < 0.5:
+            ops += [["addlane", l] for l in gone[:r.randint(1, len(gone))]] + [["assign", None, None, False]]
+            ops += [["remove", i] for i in rest[len(rest) // 2:] if ["remove", i] not in ops]
+        return {"lanelets": lanes, "obstacles": obs, "ops": ops}
+    if x < 0.86:
+        # obstacles that come with lanelet ids (constructor arguments) are added to an empty network; the lanelets arrive later
+        for o in obs:
+            if r.random() < 0.85:
+                o["preset"] = "auto"
+        late = lids[:]
+        r.shuffle(late)
+        ops = [["add", i] for i in ids] + [["addlane", l] for l in late[:r.randint(1, len(late))]]
+        rest = ids[:]
+        r.shuffle(rest)
+        ops += [["remove", i] for i in rest[:r.randint(1, len(rest))]]
+        if r.random() < 0.6:
+            ops += [["addlane", l] for l in late if ["addlane", l] not in ops] + [["add", i] for i in ids if ["remove", i] in ops]
+            ops += [["assign", None, None, False]] + [["remove", i] for i in rest[:1]]
+        return {"lanelets": lanes, "present0": [], "obstacles": obs, "ops": ops}
+    # free mixture: the obstacle history of gen_ops with lanelet removals / (re-)additions in between, some lanelets absent at
+    # the start, some obstacles with preset ids
+    present = set(lids if r.random() < 0.5 else r.sample(lids, r.randint(1, len(lids))))
+    p0 = sorted(present)
+    for o in obs:
+        if r.random() < 0.3:
+            o["preset"] = "auto"
+    ops = []
+    for op in gen_ops(r, obs):
+        while r.random() < 0.25:
+            absent = [l for l in lids if l not in present]
+            if absent and (r.random() < 0.5 or len(present) <= 1):
+                l = r.choice(absent)
+                ops.append(["addlane", l])
+                present.add(l)
+            elif present:
+                l = r.choice(sorted(present))
+                ops.append(["rmlane", l])
+                present.discard(l)
+        ops.append(op)
+    if r.random() < 0.1:
+        ops.append(["rmlane", r.choice(lids)])         # possibly a lanelet that is not there: KeyError branch
+    return {"lanelets": lanes, "present0": p0, "obstacles": obs, "ops": ops}
 
 
 # ------------------------------------------------------------------------------------------------ real objects
@@ -302,8 +370,11 @@ def build_obstacle(o):
     shape = geom.build_shape(o["shape"])
     ini = InitialState(position=np.array(o["pos"], dtype=float), orientation=float(o["o"]), time_step=int(o["t0"]),
                        velocity=1.0, acceleration=0.0, yaw_rate=0.0, slip_angle=0.0)
+    pre = o.get("preset") or {}
+    ids = {"initial_center_lanelet_ids": None if pre.get("ic") is None else set(pre["ic"]),
+           "initial_shape_lanelet_ids": None if pre.get("is") is None else set(pre["is"])}
     if o["kind"] == "static":
-        return StaticObstacle(o["id"], ObstacleType.PARKED_VEHICLE, shape, ini, signal_series=[])
+        return StaticObstacle(o["id"], ObstacleType.PARKED_VEHICLE, shape, ini, signal_series=[], **ids)
     pred = None
     if o["kind"] == "set":
         from commonroad.prediction.prediction import Occupancy, SetBasedPrediction
@@ -313,16 +384,24 @@ def build_obstacle(o):
     if o["kind"] == "traj":
         sts = [KSState(position=np.array(s["pos"], dtype=float), orientation=float(s["o"]), time_step=int(o["t0"]) + 1 + k,
                        velocity=1.0, steering_angle=0.0) for k, s in enumerate(o["traj"])]
-        pred = TrajectoryPrediction(Trajectory(int(o["t0"]) + 1, sts), geom.build_shape(o["shape"]))
-    return DynamicObstacle(o["id"], ObstacleType.CAR, shape, ini, pred, signal_series=[])
+        pred = TrajectoryPrediction(Trajectory(int(o["t0"]) + 1, sts), geom.build_shape(o["shape"]),
+                                    None if pre.get("pc") is None else {int(t): set(v) for t, v in pre["pc"].items()},
+                                    None if pre.get("ps") is None else {int(t): set(v) for t, v in pre["ps"].items()})
+    return DynamicObstacle(o["id"], ObstacleType.CAR, shape, ini, pred, signal_series=[], **ids)
 
 
 def build_scenario(case):
     from commonroad.scenario.lanelet import LaneletNetwork
     from commonroad.scenario.scenario import Location, Scenario, ScenarioID, Tag
     sc = Scenario(0.1, ScenarioID(), author="verif", tags={Tag.URBAN}, affiliation="verif", source="verif", location=Location())
-    sc.add_objects(LaneletNetwork.create_from_lanelet_list([build_lanelet(l) for l in case["lanelets"]]))
+    p0 = present0(case)
+    sc.add_objects(LaneletNetwork.create_from_lanelet_list([build_lanelet(l) for l in case["lanelets"] if l["id"] in p0]))
     return sc
+
+
+def present0(case):
+    """ids of the lanelets in the scenario at the start of the history (default: all of the case)"""
+    return [l["id"] for l in case["lanelets"]] if case.get("present0") is None else list(case["present0"])
 
 
 def horizon(o):
@@ -354,19 +433,21 @@ def _sdict(d):
     return None if d is None else {str(int(t)): sorted(int(v) for v in ids) for t, ids in d.items()}
 
 
-def observe(sc, objs):
+def observe(sc, objs, universe=None):
     fwd = {}
     for oid, ob in objs.items():
         p = getattr(ob, "prediction", None)
         fwd[str(oid)] = {"ic": _sset(ob.initial_center_lanelet_ids), "is": _sset(ob.initial_shape_lanelet_ids),
                          "pc": _sdict(getattr(p, "center_lanelet_assignment", None)),
                          "ps": _sdict(getattr(p, "shape_lanelet_assignment", None))}
-    lanes = sorted(sc.lanelet_network.lanelets, key=lambda l: l.lanelet_id)
+    lanes = {l.lanelet_id: l for l in sc.lanelet_network.lanelets}
+    ids = sorted(lanes) if universe is None else sorted(universe)
     return {"fwd": fwd,
+            "present": sorted(lanes),
             "statics": sorted(o.obstacle_id for o in sc.static_obstacles),
             "dynamics": sorted(o.obstacle_id for o in sc.dynamic_obstacles),
-            "sreg": {str(l.lanelet_id): _sset(l.static_obstacles_on_lanelet) for l in lanes},
-            "dreg": {str(l.lanelet_id): _sdict(l.dynamic_obstacles_on_lanelet) for l in lanes}}
+            "sreg": {str(i): _sset(lanes[i].static_obstacles_on_lanelet) if i in lanes else [] for i in ids},
+            "dreg": {str(i): _sdict(lanes[i].dynamic_obstacles_on_lanelet) if i in lanes else {} for i in ids}}
 
 
 # ------------------------------------------------------------------------------------------------ exact geometry (oracle)
@@ -516,10 +597,29 @@ class World:
     def __init__(self, ctx, case):
         self.ctx, self.case = ctx, case
         self.spec = {o["id"]: o for o in case["obstacles"]}
+        from commonroad.scenario.lanelet import LaneletNetwork
         self.sc = build_scenario(case)
+        self.lane_spec = {l["id"]: l for l in case["lanelets"]}
+        # the lookups on ALL lanelets of the case (the model restricts them to the lanelets present at the time of the call)
+        self.universe = LaneletNetwork.create_from_lanelet_list([build_lanelet(l) for l in case["lanelets"]])
+        self.objs = {o["id"]: build_obstacle(dict(o, preset=None)) for o in case["obstacles"]}
+        if any(o.get("preset") == "auto" for o in case["obstacles"]):
+            # "auto": the obstacle is constructed with the lookup answers on all lanelets of the case as its lanelet ids
+            look = self.lookups()
+            for o in case["obstacles"]:
+                if o.get("preset") == "auto" and o["kind"] != "set":
+                    rows = look[o["id"]]
+                    pre = {"ic": rows[0][1], "is": rows[0][2]}
+                    if o["kind"] == "traj":
+                        pre["pc"] = {str(t): c for t, c, _ in rows}
+                        pre["ps"] = {str(t): sh for t, _, sh in rows}
+                    o["preset"] = pre
+                elif o.get("preset") == "auto":
+                    o["preset"] = None
         self.objs = {o["id"]: build_obstacle(o) for o in case["obstacles"]}
         self._brute = {}
         self._seen = set()
+        self.net_version = 0
 
     def first(self, what):
         if what in self._seen:
@@ -528,14 +628,14 @@ class World:
         return True
 
     def brute(self, oid, t):
-        key = (id(self.objs[oid]), id(self.sc.lanelet_network), t)
+        key = (id(self.objs[oid]), id(self.sc.lanelet_network), self.net_version, t)
         if key not in self._brute:
             self._brute[key] = (self.objs[oid], brute(self.sc, self.objs[oid], t))      # keep the object alive: id() stays unique
         return self._brute[key][1]
 
     def lookups(self):
         """answers of the library's two lookups for every obstacle and time step (parameters of the model)"""
-        net = self.sc.lanelet_network
+        net = self.universe
         out = {}
         for oid, o in self.spec.items():
             ob = self.objs[oid]
@@ -566,14 +666,43 @@ class World:
             for ob in sc2.obstacles:
                 self.objs[ob.obstacle_id] = ob
             self.sc = sc2
+            self.net_version += 1
+        elif op[0] == "rmlane":
+            la = sc.lanelet_network.find_lanelet_by_id(op[1])
+            sc.remove_lanelet(la if la is not None else build_lanelet(self.lane_spec[op[1]]))
+            self.net_version += 1
+        elif op[0] == "addlane":
+            sc.add_objects(build_lanelet(self.lane_spec[op[1]]))        # a fresh lanelet object: empty registries
+            self.net_version += 1
         else:
             raise ValueError(op)
 
+    def present(self):
+        return {l.lanelet_id for l in self.sc.lanelet_network.lanelets}
 
-def admissible(op, spec, inside):
+    def recorded_lanelets(self, oid):
+        """every lanelet id the obstacle object's SHAPE attributes name (what add_objects registers)"""
+        ob = self.objs[oid]
+        out = set(ob.initial_shape_lanelet_ids or ())
+        for ids in (getattr(getattr(ob, "prediction", None), "shape_lanelet_assignment", None) or {}).values():
+            out |= set(ids)
+        return out
+
+
+def admissible(op, spec, inside, w=None):
     """is the operation one the property speaks about (valid arguments)"""
+    if op[0] == "rmlane":
+        return w is not None and op[1] in w.present()
+    if op[0] == "addlane":
+        return w is not None and op[1] in w.lane_spec and op[1] not in w.present() and op[1] not in inside
     if op[0] == "add":
-        return op[1] in spec and op[1] not in inside
+        if not (op[1] in spec and op[1] not in inside):
+            return False
+        # an obstacle whose recorded shape sets name a lanelet that is not in the (non-empty) network cannot be added
+        # (AttributeError by construction; the property does not promise that adding never fails)
+        if w is not None and spec[op[1]]["kind"] != "set" and w.present() and not w.recorded_lanelets(op[1]) <= w.present():
+            return False
+        return True
     if op[0] == "remove":
         return op[1] in inside
     if op[0] == "assign":
@@ -590,9 +719,14 @@ def admissible(op, spec, inside):
     return True
 
 
-def judge(w, op, opname, inside, shape_mode, st, sub):
-    """oracle: the property statement on the observed state `st` after operation `op`"""
+def judge(w, op, opname, inside, shape_mode, st, sub, pure=True, net_pending=False):
+    """oracle: the property statement on the observed state `st` after operation `op`.
+    pure: the network never changed and no obstacle came with preset lanelet ids (then EVERY recorded set must be the geometric
+    truth at any time; otherwise only the sets the operation just wrote are judged — older ones may name lanelets that left).
+    net_pending: a lanelet was (re-)added since the last full assignment / file read: obstacles may record it without being
+    listed on the fresh object, so only 'registry within recorded' is judged."""
     ctx = w.ctx
+    present = set(st["present"])
     # (1) every recorded set is the geometric truth; after an assignment nothing of the horizon is missing
     full = (op[0] == "reopen") or (op[0] == "assign" and not op[3])
     addressed = set()
@@ -621,6 +755,8 @@ def judge(w, op, opname, inside, shape_mode, st, sub):
                              f"after {op} obstacle {oid} ({o['kind']}) has no {where} lanelet sets at time step {t}: center {rc}, shape {rs}", sub)
                 if rc is None and rs is None:
                     continue
+                if not pure and (oid, t) not in addressed:
+                    continue
                 cm, cq, sm, sq, half = w.brute(oid, t)
                 if (cq or sq) and w.first(("amb", oid, t)):
                     ctx.excluded += 1          # one ambiguous (obstacle, time step): the ambiguous lanelets are not judged
@@ -645,7 +781,7 @@ def judge(w, op, opname, inside, shape_mode, st, sub):
         # holds then (C07_registry_bounds_run, C07_remove_clears): every recorded shape triple of an obstacle of the scenario is
         # registered, and whatever a lanelet lists is an obstacle of the scenario whose recorded shape or centre set holds it
         for l, reg in st["sreg"].items():
-            for i in st["statics"]:
+            for i in (st["statics"] if int(l) in present and not net_pending else []):
                 if int(l) in (st["fwd"][str(i)]["is"] or []) and i not in reg and w.first(("ws", l, i)):
                     fail(ctx, f"C07/{opname}/registry-misses-recorded/static",
                          f"after {op}: static obstacle {i} records shape lanelet {l} but lanelet {l} lists {reg}", sub)
@@ -659,7 +795,7 @@ def judge(w, op, opname, inside, shape_mode, st, sub):
                     fail(ctx, f"C07/{opname}/registry-lists-unrecorded/static",
                          f"after {op}: lanelet {l} lists static obstacle {i} whose recorded shape and centre sets do not hold {l}", sub)
         for l, reg in st["dreg"].items():
-            for i in st["dynamics"]:
+            for i in (st["dynamics"] if int(l) in present and not net_pending else []):
                 f, o = st["fwd"][str(i)], w.spec[i]
                 rec = {str(o["t0"]): set(f["is"] or [])}
                 if o["kind"] == "traj" and f["ps"] is not None:
@@ -691,11 +827,17 @@ def judge(w, op, opname, inside, shape_mode, st, sub):
     if sorted(inside) != sorted(st["statics"] + st["dynamics"]):
         fail(ctx, f"C07/{opname}/scenario-content", f"after {op}: scenario holds {st['statics']} + {st['dynamics']}, expected {sorted(inside)}", sub)
     for l, reg in st["sreg"].items():
+        if int(l) not in present:
+            if reg and w.first(("absent-s", l)):
+                fail(ctx, f"C07/{opname}/registry-of-absent-lanelet", f"after {op}: lanelet {l} is not in the network but lists {reg}", sub)
+            continue
         want = sorted(i for i in st["statics"] if int(l) in (st["fwd"][str(i)]["is"] or []))
         if reg != want and w.first(("rs", l, tuple(reg), tuple(want))):
             fail(ctx, f"C07/{opname}/registry-not-inverse/static",
                      f"after {op}: lanelet {l} lists static obstacles {reg}; static obstacles whose shape set holds {l}: {want}", sub)
     for l, reg in st["dreg"].items():
+        if int(l) not in present:
+            continue
         ts = set(int(t) for t in reg)
         for i in st["dynamics"]:
             ts.update(horizon(w.spec[i]))
@@ -717,6 +859,8 @@ def judge(w, op, opname, inside, shape_mode, st, sub):
 def opname_of(op):
     if op[0] == "reopen":
         return "open-" + op[1]
+    if op[0] in ("rmlane", "addlane"):
+        return {"rmlane": "remove_lanelet", "addlane": "add_lanelet"}[op[0]]
     return {"add": "add_objects", "remove": "remove_obstacle", "assign": "assign_obstacles_to_lanelets"}[op[0]]
 
 
@@ -724,20 +868,27 @@ def run_case(ctx, case, tags=True):
     w = World(ctx, case)
     ops = case["ops"]
     removed_after = False
+    late_lanes = False
     # parameters of the model
     look = call(w.lookups)
-    inside, shape_mode, assigned = set(), True, False
+    inside, assigned = set(), False
+    center_pending, net_pending, pure = False, False, not any(o.get("preset") for o in case["obstacles"])
     impl = []
     if look[0] == "ok":
         geo_compare(ctx, w, case, look[1], tags)
     for k, op in enumerate(ops):
         sub = dict(case, ops=ops[:k + 1])
-        ok = admissible(op, w.spec, inside)
+        ok = admissible(op, w.spec, inside, w)
         opname = opname_of(op)
         r = call(w.apply, op)
         if r[0] == "err":
             impl.append({"err": r[1]})
-            if ok:
+            if ok and op[0] == "remove" and not pure:
+                # "removing an obstacle that is in the scenario never fails", also when the network changed under the assignment
+                fail(ctx, "C07/remove_obstacle/raises-after-lanelet-removal",
+                     f"{op} raised {r[2]} (obstacle {op[1]} is in the scenario; lanelets present {sorted(w.present())}, lanelets its "
+                     f"recorded shape sets name {sorted(w.recorded_lanelets(op[1]))})", sub)
+            elif ok:
                 what = "/".join(sorted({top_kind(w.spec[i]["shape"]) for i in inside})) if op[0] != "remove" else w.spec[op[1]]["kind"]
                 fail(ctx, f"C07/{opname}/raises-{r[1]}/{what}", f"{op} raised {r[2]} (obstacles in the scenario: {sorted(inside)})", sub)
             elif tags:
@@ -752,21 +903,35 @@ def run_case(ctx, case, tags=True):
                 removed_after = True
                 if tags:
                     ctx.tag("op/remove-after-assign")
+            if tags and (w.recorded_lanelets(op[1]) - w.present()):
+                ctx.tag("net/remove-obstacle-recording-absent-lanelet")
+            if tags and w.spec[op[1]].get("preset") and late_lanes:
+                ctx.tag("net/remove-preset-obstacle-after-late-lanelets")
             inside.discard(op[1])
+        elif op[0] in ("rmlane", "addlane") and ok:
+            pure = False
+            if op[0] == "addlane":
+                net_pending = True
+                if inside:
+                    late_lanes = True
+            if tags:
+                ctx.tag("net/" + op[0])
         elif op[0] == "assign":
             if op[3]:
-                shape_mode = False
+                center_pending = True
                 if tags:
                     ctx.tag("op/center-only")
             else:
                 assigned = True
+                if op[1] is None and op[2] is None and not center_pending:
+                    net_pending = False      # a full assignment re-establishes the exact inverse (C07c_reassign_exact)
                 if tags:
                     ctx.tag("entry/assign")
                     if op[1] is not None or op[2] is not None:
                         ctx.tag("op/partial-assign")
         elif op[0] == "reopen":
             assigned = True
-            shape_mode = True        # the registries are rebuilt from the shape sets (C07_reopen_restores)
+            center_pending = net_pending = False        # the registries are rebuilt from the shape sets (C07_reopen_restores)
             if tags:
                 ctx.tag("entry/reopen-" + op[1])
             # the geometry must have survived the file exactly, else the model's parameters are stale: stop the history here
@@ -776,9 +941,9 @@ def run_case(ctx, case, tags=True):
                 ctx.tag("reopen/geometry-changed-by-file")
                 ops = ops[:k]
                 break
-        st = observe(w.sc, w.objs)
+        st = observe(w.sc, w.objs, w.lane_spec)
         impl.append({"ok": st})
-        judge(w, op, opname, inside, shape_mode, st, sub)
+        judge(w, op, opname, inside, not (center_pending or net_pending), st, sub, pure, net_pending)
     beyond = False
     if tags:
         beyond = tag_case(ctx, w, case)
@@ -789,12 +954,19 @@ def run_case(ctx, case, tags=True):
         fail(ctx, f"C07/find_lanelet_by_shape/raises-{look[1]}/{kinds}", f"lookup on an obstacle occupancy raised {look[2]}", dict(case, ops=[]))
         return
     ts = [t for o in case["obstacles"] for t in horizon(o)]
-    args = {"lanelets": [l["id"] for l in case["lanelets"]],
+    def _preset(o):
+        pre = o.get("preset")
+        if not pre:
+            return None
+        return {"ic": pre.get("ic"), "is": pre.get("is"),
+                "pc": None if pre.get("pc") is None else {str(t): v for t, v in pre["pc"].items()},
+                "ps": None if pre.get("ps") is None else {str(t): v for t, v in pre["ps"].items()}}
+    args = {"lanelets": [l["id"] for l in case["lanelets"]], "present0": present0(case),
             "obs": [{"id": o["id"], "kind": o["kind"], "t0": o["t0"], "len": len(o.get("traj", [])) if o["kind"] == "traj" else 0,
-                     "look": look[1][o["id"]]} for o in case["obstacles"]],
+                     "look": look[1][o["id"]], "preset": _preset(o)} for o in case["obstacles"]],
             "ops": ops, "tmin": min(ts), "tspan": max(ts) - min(ts)}
-    model = ctx.driver.ask("C07", "run", args)
-    ctx.compare(dict(case, ops=ops), impl, model, "Scenario add/assign/remove/open history vs CR.Assign.run")
+    model = ctx.driver.ask("C07", "nrun", args)
+    ctx.compare(dict(case, ops=ops), impl, model, "Scenario add/assign/remove/open/add_lanelet/remove_lanelet history vs CR.Assign.nrun")
 
 
 def _rspec(spec):
